@@ -79,10 +79,16 @@ func lockorderMain(args []string) {
 	n.RPush("a", []byte("x"))
 	start(true, func() { n.Exists("a", "b") })
 	ok = wait() && ok
-	start(false, func() { n.RPush("b", []byte("y")) })
-	time.Sleep(150 * time.Millisecond)
-	start(false, func() { n.RPush("a", []byte("z")) })
-	time.Sleep(150 * time.Millisecond)
+	total := 4
+	if len(args) > 0 && args[0] == "readers" {
+		// the lock model says: without the queued writers the two readers share both locks and finish
+		total = 2
+	} else {
+		start(false, func() { n.RPush("b", []byte("y")) })
+		time.Sleep(150 * time.Millisecond)
+		start(false, func() { n.RPush("a", []byte("z")) })
+		time.Sleep(150 * time.Millisecond)
+	}
 	close(release)
 	fin := make(chan struct{})
 	go func() { done.Wait(); close(fin) }()
@@ -93,5 +99,5 @@ func lockorderMain(args []string) {
 	cmu.Lock()
 	c := cnt
 	cmu.Unlock()
-	fmt.Printf("LOCKORDER done=%d/4 staged=%v\n", c, ok)
+	fmt.Printf("LOCKORDER done=%d/%d staged=%v\n", c, total, ok)
 }
